@@ -285,7 +285,9 @@ def containers_factory(quick, seed):
     L = lib()
     ag, np, ab = L["ag"], L["np"], L["ab"]
     OUTS = ["T(x[0:2], x[0])", "T(x[0:2], x[1:3])", "T(x[1:], x[:2], x[::2])", "T(x[0], x[0])", "T(x[::-1], x[2])", "T(x[:2], x[:2])",
-            "T(x[0:2] + T(x[2]), x[1])", "T(T(x[1]) + x[0:2], x[0])", "np.sum(x[0]) * x[1] + x[0]", "T(x[0:1], x[-1], x[0])"]
+            "T(x[0:2] + T(x[2]), x[1])", "T(T(x[1]) + x[0:2], x[0])", "np.sum(x[0]) * x[1] + x[0]", "T(x[0:1], x[-1], x[0])",
+            # the container itself (a dense container contribution) together with uses of its elements
+            "T(x, x[0])", "x + T(x[0] * x[1])", "T(x[1]) + x", "T(x, x)", "T(x[0] * x[1], x)", "T(x, x[0:2], x[2])"]
 
     def h(ch):
         kind = ch.choose("container", ["tuple", "list"])
